@@ -110,4 +110,12 @@ REGISTRY = {
         "object outside the write set (operations with noise descriptors, openQASM text, compiled state), RewriteOK, "
         "DeterministicCompile, NoisyCopyOK.",
         "", "DESIGN.md 6/C13"),
+    "C15": (
+        "circuit semantics (set of final states over all outcome branches, up to same-type register renaming) computed "
+        "by TLC from the projected circuits; the real comparison / de-duplication verdicts judged against it",
+        "Random base circuits x near-miss variants (swap control/target, reorder, rewrap, identities, rename registers, "
+        "other creg, change / drop a gate) x methods (direct, is_isomorphic, GED on tiny circuits, "
+        "check_redundant_circuit) in both argument orders; remove_redundant_circuits and CircuitStorage on shuffled "
+        "lists: SoundEq, Symmetric, ReflexiveOnCopy, WrapInsensitive, IdentityInsensitive, DedupComplete.",
+        "", "DESIGN.md 6/C15"),
 }
